@@ -29,11 +29,9 @@ func (c *Ctx) appendCommon(st *State, s Slice, n Term, write func(fam, leaf stri
 	}
 	newCap := c.declare("ncap", c.idxSort())
 	st.assume(c, c.ile(newLen, newCap))
-	if c.mode == ModeBV {
-		st.assume(c, c.ile(c.iadd(s.Off, newCap), IntLit(bvSort(64), pow2(60))))
-		st.assume(c, c.ile(newCap, IntLit(bvSort(64), pow2(60))))
-		st.assume(c, c.ile(c.idx(0), newLen)) // lengths never overflow int
-	}
+	st.assume(c, c.ile(c.iadd(s.Off, newCap), IntLit(c.idxSort(), pow2(60))))
+	st.assume(c, c.ile(newCap, IntLit(c.idxSort(), pow2(60))))
+	st.assume(c, c.ile(c.idx(0), newLen)) // lengths never overflow int
 	return Slice{ref, s.Off, newLen, c.nameIfBig(Ite(fits, s.Cap, newCap), "acap"), s.Elem}
 }
 
@@ -59,7 +57,7 @@ func (c *Ctx) appendGeneric2(st *State, s Slice, n Term, elemAt func(fam, leaf s
 	return c.appendCommon(st, s, n, func(fam, leaf string, row Term) Term {
 		nw := c.declare("arow", arraySort(c.idxSort(), leaf))
 		c.rangeAxiomRow(nw, fam)
-		st.assume(c, c.forallIdx(func(i Term) Term {
+		c.qfact(st, c.forallIdx(func(i Term) Term {
 			in := And(c.ile(base, i), c.ilt(i, c.iadd(base, n)))
 			return Eq(Select(nw, i), Ite(in, elemAt(fam, leaf, c.isub(i, base)), Select(row, i)))
 		}))
